@@ -599,9 +599,17 @@ func (il *inliner) buildBlock(fd *ast.FuncDecl, obj *types.Func, call *ast.CallE
 	if len(call.Args) < nfixed {
 		return "", "", "", false // f(g()) with a multi-value g: not handled
 	}
+	funcBind := map[int]string{}
 	for i := 0; i < nfixed; i++ {
 		if i < len(il.substParam) && il.substParam[i] {
 			tmpNames = append(tmpNames, "")
+			continue
+		}
+		if fb := il.funcParamBinding(fd, i, call.Args[i]); fb != "" {
+			// a function constant (literal, method expression, function name) handed to a parameter
+			// that is only ever called: bound as a local closure, which the next round expands
+			funcBind[i] = fb
+			tmpNames = append(tmpNames, "-")
 			continue
 		}
 		t := fmt.Sprintf("a__inl%d_%d", id, i)
@@ -638,6 +646,10 @@ func (il *inliner) buildBlock(fd *ast.FuncDecl, obj *types.Func, call *ast.CallE
 	}
 	for i, p := range sh.params {
 		if tmpNames[k+i] == "" {
+			continue
+		}
+		if fb, ok := funcBind[i]; ok {
+			sb.WriteString(fmt.Sprintf("%s := %s; ", p, fb))
 			continue
 		}
 		sb.WriteString(fmt.Sprintf("var %s %s = %s; _ = %s; ", p, sh.ptypes[i], tmpNames[k+i], p))
@@ -769,6 +781,28 @@ func (il *inliner) stmtEdit(stmt ast.Stmt, file *ast.File) (string, bool) {
 					return pre + block
 				})
 			}
+		case *ast.DeclStmt:
+			// var x T = h(...)
+			gd, ok := x.Decl.(*ast.GenDecl)
+			if !ok || gd.Tok != token.VAR || len(gd.Specs) != 1 {
+				break
+			}
+			vs, ok := gd.Specs[0].(*ast.ValueSpec)
+			if !ok || len(vs.Names) != 1 || len(vs.Values) != 1 {
+				break
+			}
+			if fn, call := calleeOf(vs.Values[0]); fn != nil {
+				ty := ""
+				if vs.Type != nil {
+					ty = " " + il.text(vs.Type)
+				}
+				return try(fn, call, false, func(pre, block, results string, n int) string {
+					if n != 1 {
+						return ""
+					}
+					return pre + block + "; var " + vs.Names[0].Name + ty + " = " + results
+				})
+			}
 		case *ast.AssignStmt:
 			if len(x.Rhs) == 1 {
 				if fn, call := calleeOf(x.Rhs[0]); fn != nil {
@@ -788,7 +822,7 @@ func (il *inliner) stmtEdit(stmt ast.Stmt, file *ast.File) (string, bool) {
 		return "", false
 	}
 	switch x := stmt.(type) {
-	case *ast.ExprStmt, *ast.AssignStmt:
+	case *ast.ExprStmt, *ast.AssignStmt, *ast.DeclStmt:
 		t, ok := simple(x)
 		if ok && t != "" {
 			return t, true
@@ -2391,6 +2425,103 @@ func (il *inliner) dropInlinedClosures(fd *ast.FuncDecl, file string) {
 		}
 		delete(il.closureDef, syn)
 	}
+}
+
+// funcParamBinding: parameter i of fd has a function type, the callee only ever calls it, and the
+// argument is a function constant: a literal (returned as written), or a function name / method
+// expression / method value of a stable local (returned wrapped in a literal of the parameter's
+// signature).  "" otherwise.
+func (il *inliner) funcParamBinding(fd *ast.FuncDecl, i int, arg ast.Expr) string {
+	info := il.pkg.TypesInfo
+	_, params := il.paramObjs(fd)
+	if i >= len(params) || params[i] == nil {
+		return ""
+	}
+	obj := params[i]
+	sig, ok := obj.Type().Underlying().(*types.Signature)
+	if !ok || sig.Variadic() {
+		return ""
+	}
+	// every use of the parameter is the callee of a call (not of go / defer), at least one
+	uses, total, bad := 0, 0, false
+	ast.Inspect(fd.Body, func(n ast.Node) bool {
+		switch x := n.(type) {
+		case *ast.CallExpr:
+			if id, ok := ast.Unparen(x.Fun).(*ast.Ident); ok && info.Uses[id] == types.Object(obj) {
+				uses++
+			}
+		case *ast.GoStmt:
+			if id, ok := ast.Unparen(x.Call.Fun).(*ast.Ident); ok && info.Uses[id] == types.Object(obj) {
+				bad = true
+			}
+		case *ast.DeferStmt:
+			if id, ok := ast.Unparen(x.Call.Fun).(*ast.Ident); ok && info.Uses[id] == types.Object(obj) {
+				bad = true
+			}
+		case *ast.Ident:
+			if info.Uses[x] == types.Object(obj) {
+				total++
+			}
+		}
+		return true
+	})
+	if bad || uses == 0 || uses != total {
+		return ""
+	}
+	arg = ast.Unparen(arg)
+	if lit, ok := arg.(*ast.FuncLit); ok {
+		return il.text(lit)
+	}
+	isFuncConst := false
+	methodExpr := ""
+	switch x := arg.(type) {
+	case *ast.Ident:
+		_, isFuncConst = info.Uses[x].(*types.Func)
+	case *ast.SelectorExpr:
+		if sel := info.Selections[x]; sel != nil {
+			switch sel.Kind() {
+			case types.MethodExpr:
+				isFuncConst = true
+				methodExpr = x.Sel.Name
+			case types.MethodVal:
+				isFuncConst = il.stableLocal(x.X)
+			}
+		} else if _, ok := info.Uses[x.Sel].(*types.Func); ok {
+			isFuncConst = true // pkg.F
+		}
+	}
+	if !isFuncConst {
+		return ""
+	}
+	foreign := false
+	q := func(p *types.Package) string {
+		if p == il.pkg.Types {
+			return ""
+		}
+		foreign = true
+		return p.Name()
+	}
+	var ps, as []string
+	for k := 0; k < sig.Params().Len(); k++ {
+		ps = append(ps, fmt.Sprintf("p__f%d %s", k, types.TypeString(sig.Params().At(k).Type(), q)))
+		as = append(as, fmt.Sprintf("p__f%d", k))
+	}
+	var rs []string
+	for k := 0; k < sig.Results().Len(); k++ {
+		rs = append(rs, types.TypeString(sig.Results().At(k).Type(), q))
+	}
+	if foreign {
+		return ""
+	}
+	ret := "return "
+	if len(rs) == 0 {
+		ret = ""
+	}
+	if methodExpr != "" && len(as) > 0 {
+		// T.M(x, a...) is x.M(a...); go/ssa would route the former through a thunk
+		return fmt.Sprintf("func(%s) (%s) { %s%s.%s(%s) }", strings.Join(ps, ", "), strings.Join(rs, ", "), ret, as[0], methodExpr, strings.Join(as[1:], ", "))
+	}
+	return fmt.Sprintf("func(%s) (%s) { %s%s(%s) }", strings.Join(ps, ", "), strings.Join(rs, ", "), ret, il.text(arg), strings.Join(as, ", "))
 }
 
 // stableLocal: e is a local variable or parameter of the current function that is assigned
